@@ -76,10 +76,11 @@ def run(tier, seed):
     p = base.tier_params(tier)
     spec = Spec()
     classes_seen = {}
-    for fl in base.flavours_for(tier, seed):
+    for fl, reduced in base.flavours_for(tier, seed, (0, 1, 2, 3, 5, 6)):
         for cls in CLASSES:
             conf = U.conf_make(cls, True, fl, p['w'])
-            total, summary = base.explore_universes(spec, conf, tier)
+            total, summary = (base.explore_universes(spec, conf, tier, which=base.REDUCED['which'], params=base.REDUCED['params'])
+                              if reduced else base.explore_universes(spec, conf, tier))
             rep.cov['per_universe'] += summary
             rep.cov['states'] += total.states
             rep.cov['transitions'] += total.transitions
